@@ -15,6 +15,9 @@ CLAIMED = {
  'C03': ('bounded-exhaustive token-class sequences + proptest-generated token and character soups + scaling families; oracle: every stage returns (catch_unwind, watchdog, cycle pre-detection)',
          'Every sequence of up to 4 (quick) / 5 (thorough) token classes out of 30 (one per parser token class) x 3 separators, random token soups (to 400 tokens) and raw character soups (control characters, quotes, backslash, NUL, multi-byte), and 20 scaling families up to n=2048 / 16384; lex, parse and build into both data implementations must return Ok or Err without panic, abort, hang (5 s watchdog, 30 s for scaling) or a cyclic parse result.',
          'Termination is decided up to the watchdog budget; the polynomial-time clause only by absolute deadlines on fixed families (no proof).', 'DESIGN.md §3 C03'),
+ 'C04': ('bounded-exhaustive token-class sequences + proptest-generated soups and operator expressions; invariant oracle over the parse tree (links, single reachability, in-order = source order, token accounting) and the build metadata',
+         'On every input of the C03 corpus (all sequences of up to 4/5 token classes x 3 separators, token soups) and on generated operator expressions that parse and build accept: parent/child links agree, no node is shared or on a cycle, the in-order walk is in strictly increasing source order, every significant token is carried by exactly one reachable node, non-redundant separators are kept, and every reachable value/operator node owns an instruction in the metadata.',
+         'Redundant separators and structural nodes exempt from the metadata clause are defined in the check (model/treecheck.rs) and stated in the evidence; judged only when both parse and build accept.', 'DESIGN.md §3 C04'),
  'C09': ('bounded-exhaustive enumeration + proptest-generated operand tapes against an i128 / IEEE-754 reference',
          'Every ordered pair of the 187-value boundary lattice x 12 binary operators and lattice+float pool x 5 unary operators exhaustively, a 62x62 float/mixed matrix, plus millions of random i32/f64 pairs; each compared on the GarnishNumber methods and on the executed instruction for both data implementations with a wide-integer/IEEE reference. Exhaustive on the stated lattice, sampled beyond it.',
          'Trusts the i128/f64 reference in checks/c09.rs and the platform powf; operands are finite.', 'DESIGN.md §3 C09'),
